@@ -2,7 +2,7 @@
 boundary sizes aimed at the case splits of the code and of the proofs)."""
 import random
 
-KINDS = ["random", "runs", "period", "text", "incompressible_tail", "barely", "twosym", "longmatch", "zerorich", "mixed", "lit255", "selfdict"]
+KINDS = ["random", "runs", "period", "text", "incompressible_tail", "barely", "twosym", "longmatch", "zerorich", "mixed", "lit255", "selfdict", "endgame"]
 # kinds that need > 64 KB to make sense (used where the caller allows large inputs)
 FAR_KINDS = ["distbound", "runsfar"]
 
@@ -94,11 +94,39 @@ def data(rng, kind, n):
             k = rng.choice(["random", "runs", "period", "text", "twosym", "longmatch", "selfdict"])
             out += data(rng, k, min(n - len(out), rng.choice([10, 100, 1000, 10000, 70000])))
         return bytes(out[:n])
+    if kind == "endgame":
+        return _endgame(rng, n)
     if kind == "distbound":
         return _distbound(rng, n)
     if kind == "runsfar":
         return _runsfar(rng, n)
     raise ValueError(kind)
+
+
+# ---- generator aimed at the end-of-block restrictions (MFLIMIT = 12, LASTLITERALS = 5) of every parser ----
+def _endgame(rng, n):
+    """incompressible body, then a tail of d in 10..14 bytes that starts with a key K: the first l1 in {4,5} bytes of K
+    occur earlier followed by a different byte (short match at the tail start) and K[1:1+l2] occurs earlier preceded by a
+    different byte (longer match one byte later) - the 'better match at ip+1' decisions then sit exactly on the last
+    position a match may start at (seeded C06_4: LZ4MID's ip+1 re-test with `<=` instead of `<`)"""
+    if n < 48:
+        return rng.randbytes(n)
+    d = rng.choice([10, 11, 12, 12, 12, 13, 14])
+    l1 = rng.choice([4, 4, 5]); l2 = rng.choice([5, 6, 7, 8, 8, 10])
+    K = bytearray(rng.randbytes(12))
+    def other(b): return (b + 1 + rng.randrange(255)) % 256
+    s1 = bytes(K[:l1]) + bytes([other(K[l1])])
+    s2 = bytes([other(K[0])]) + bytes(K[1:1 + l2]) + bytes([other(K[(1 + l2) % 12])])
+    tail = (bytes(K[:1 + l2]) + rng.randbytes(16))[:d]
+    room = n - d - len(s1) - len(s2)
+    if room < 3:
+        return rng.randbytes(n)
+    a = rng.randrange(0, room - 1); b = rng.randrange(0, room - a); c = room - a - b
+    if rng.random() < 0.5:
+        body = rng.randbytes(a) + s1 + rng.randbytes(b) + s2 + rng.randbytes(c)
+    else:
+        body = rng.randbytes(a) + s2 + rng.randbytes(b) + s1 + rng.randbytes(c)
+    return body + tail
 
 
 # ---- generators aimed at the LZ4_DISTANCE_MAX boundary (window edge of the match finders) ----
